@@ -6,7 +6,6 @@
     [addToRanges] / [IsPotentiallyDuplicate] / [HighestMissingUpTo] walk it from the LAST index
     down: those loops are structural recursions over [rev ranges] (suffix [_desc]).
     Deviations from the Go text, all validated by the correspondence check:
-      - [AckFrame.AcksPacket] uses sort.Search; here a linear first-match (equal on descending ranges);
       - uint64 ECN counters and int64 time arithmetic do not wrap;
       - [lastAck] keeps only the ranges of the frame (the other fields are never read back);
       - a Go panic (nil tracker, index out of range on an ACK without ranges, unknown level) is the
@@ -121,16 +120,47 @@ Definition largestAcked (a : list interval) : option Z :=
 Definition lowestAcked (a : list interval) : option Z :=
   match rev a with [] => None | (s, _) :: _ => Some s end.
 
-Fixpoint acks_first (p : Z) (a : list interval) : bool :=
-  match a with
-  | [] => false
-  | (s, l) :: rest => if p >=? s then p <=? l else acks_first p rest
+(** Go's [sort.Search(n, f)]: binary search for the smallest index in [0, n) with [f i = true]
+    ([n] if none), exactly as the standard library does it ([h := int(uint(i+j) >> 1)]).
+    The loop halves [j - i]; [S n] iterations are more than enough fuel. *)
+Fixpoint bsearch (fuel : nat) (f : nat -> bool) (i j : nat) : nat :=
+  match fuel with
+  | O => i
+  | S k =>
+    if (i <? j)%nat then
+      let h := Nat.div2 (i + j) in
+      if f h then bsearch k f i h else bsearch k f (S h) j
+    else i
   end.
 
+Definition sort_search (n : nat) (f : nat -> bool) : nat := bsearch (S n) f 0 n.
+
+(** [AcksPacket]; [None] = index out of range (panic). *)
 Definition acksPacket (a : list interval) (p : Z) : option bool :=
   match lowestAcked a, largestAcked a with
-  | Some lo, Some la => if (p <? lo) || (p >? la) then Some false else Some (acks_first p a)
+  | Some lo, Some la =>
+    if (p <? lo) || (p >? la) then Some false
+    else
+      let i := sort_search (length a)
+                 (fun i => match nth_error a i with Some (s, _) => p >=? s | None => false end) in
+      match nth_error a i with
+      | Some (_, l) => Some (p <=? l)
+      | None => None
+      end
   | _, _ => None
+  end.
+
+(** Go's [AckFrame.validateAckRanges], transliterated. *)
+Fixpoint validate_rest (prevSmallest : Z) (l : list interval) : bool :=
+  match l with
+  | [] => true
+  | (s, e) :: r => negb (prevSmallest <=? s) && negb (prevSmallest <=? e + 1) && validate_rest s r
+  end.
+
+Definition validateAckRanges (l : list interval) : bool :=
+  match l with
+  | [] => false
+  | (s, e) :: r => forallb (fun x => negb (fst x >? snd x)) l && validate_rest s r
   end.
 
 (** * receivedPacketTracker (Initial / Handshake) *)
